@@ -2,7 +2,7 @@
 from ..engine import Layer
 from ..gen import cfg as G
 from .. import observe as O
-from .cfg_common import CFGProp, cfg_layers, W4, W3, FOREIGN
+from .cfg_common import CFGProp, cfg_layers, W4, W3, FOREIGN, word_map
 
 
 class C08(CFGProp):
@@ -15,7 +15,7 @@ class C08(CFGProp):
     ASSUMPTIONS = ["derivability decided for words up to length 4 by a least-fixpoint oracle (second formulation cross-checked in selftest)"]
 
     def layers(self, tier, seed):
-        return cfg_layers(tier, adversarial=("cnf", "clash"))
+        return cfg_layers(tier, adversarial=("cnf", "clash", "mixedval", "mixedter"))
 
     def reference(self, case):
         r = self.ref_gram(case, "plain")
@@ -30,6 +30,7 @@ class C08(CFGProp):
     def check(self, case, ref, ctx):
         scheme = ctx.variant or "plain"
         lang = ref["lang"]
+        to_s, _ = word_map(case, scheme)
         share = {}
         for via, wl in (("full", W4), ("prods", list(reversed(W3)))):
             g = ctx.call(O.build_cfg, case, scheme, via, share)
@@ -40,13 +41,13 @@ class C08(CFGProp):
                 r = ctx.call(g.generate_epsilon)
                 if ctx.returns(r, "C08.generate_epsilon"):
                     ctx.expect(r.value is (() in lang), "C08.generate_epsilon", got=r.value, want=() in lang)
-            first = ctx.call(g.contains, list(wl[0]))        # a non-terminating first query must not cost a whole batch
+            first = ctx.call(g.contains, list(to_s(wl[0])))        # a non-terminating first query must not cost a whole batch
             if first.kind == "timeout":
                 ctx.fail("C08.contains.terminates", via=via, word=wl[0])
                 return
-            if not ctx.batch_equal("C08.contains", lambda w: g.contains(list(w)), wl, lambda w: w in lang, via=via):
+            if not ctx.batch_equal("C08.contains", lambda w: g.contains(list(to_s(w))), wl, lambda w: w in lang, via=via):
                 continue
-            ctx.batch_equal("C08.in", lambda w: list(w) in g, wl[:7], lambda w: w in lang, via=via)
+            ctx.batch_equal("C08.in", lambda w: list(to_s(w)) in g, wl[:7], lambda w: w in lang, via=via)
 
 
 PROP = C08()
